@@ -20,6 +20,7 @@
 #include "logparse.h"
 #include "nx.h"
 #include "scenario.h"
+#include "build_log.h"
 
 using namespace std;
 using namespace nx;
@@ -49,6 +50,8 @@ struct World {
   set<string> base_restat_pruned;
   // C07: some invocation in the history was interrupted or killed.
   bool abnormal = false;
+  // C10/C11: the same history applied to the twin manifest (default schedules)
+  vfs::Disk twin;
 };
 
 static const char* kLog = ".ninja_log";
@@ -251,7 +254,7 @@ struct Explorer {
 
   // ---- non-ninja operations ---------------------------------------------------------------
   /// Returns false when the operation is not applicable in this world.
-  bool ApplySimple(const Op& op, vfs::Disk* d) {
+  bool ApplySimple(const Op& op, vfs::Disk* d, bool twin = false) {
     switch (op.kind) {
       case Op::kEdit: {
         const vfs::File* f = d->Get(op.path);
@@ -281,7 +284,7 @@ struct Explorer {
         return true;
       }
       case Op::kVariant: {
-        const Variant& v = sc.variants[op.variant];
+        const Variant& v = (twin ? sc.twin_variants : sc.variants)[op.variant];
         bool changed = false;
         for (auto& kv : v.files) {
           const vfs::File* f = d->Get(kv.first);
@@ -1511,6 +1514,153 @@ struct Explorer {
     }
   }
 
+  /// Classification helper for the known finding F1: is the statement dirty by what the manifest alone
+  /// says (missing output, no / different log record, declared non-order-only input newer)?  Then
+  /// ninja does not load its recorded dependencies.
+  bool DirtyByManifest(const Variant& v, const Stmt& s, const vfs::Disk& d) {
+    lp::BuildLogModel bl;
+    if (auto* f = d.Get(kLog)) bl = lp::ParseBuildLog(f->data);
+    for (auto& o : s.outs) {
+      const vfs::File* of = d.Get(o);
+      if (!of) return true;
+      auto e = bl.entries.find(o);
+      if (e == bl.entries.end()) { if (!s.generator) return true; continue; }
+      if (!s.generator) {
+        string cmd = s.cmd;
+        if (!s.rspfile_content.empty()) cmd += ";rspfile=" + s.rspfile_content;
+        char hex[32];
+        snprintf(hex, sizeof hex, "%llx", (unsigned long long)BuildLog::LogEntry::HashCommand(cmd));
+        if (e->second.hash != hex) return true;
+      }
+      for (auto* l : {&s.ex, &s.im})
+        for (auto& i : *l) {
+          const vfs::File* f = d.Get(i);
+          if (!f) return true;
+          if (f->mtime > of->mtime || vfs::TickToNs(f->mtime) > e->second.mtime) return true;
+          auto p = v.producer.find(i);
+          if (p != v.producer.end() && !v.stmts[p->second].phony && DirtyByManifest(v, v.stmts[p->second], d)) return true;
+        }
+    }
+    return false;
+  }
+
+  // ---- C10 / C11: metamorphic twin -------------------------------------------------------------
+  /// The scenario (dependencies discovered through depfile/deps log, or supplied by dyndep files)
+  /// and its twin (the same information written in the manifest) are driven through the same
+  /// history; every invocation must start the same statements, and in the scenario every
+  /// statement starts only after the producers of its discovered / dyndep-supplied inputs.
+  void CheckTwin(const Op& op, const RunResult& r, const vfs::Disk& before, const vfs::Disk& after,
+                 const RunResult& rt, const vfs::Disk& twin_before, const vfs::Disk& twin_after,
+                 vector<Violation>* out) {
+    const char* prop = sc.tags.count("dyndep") ? "C11" : "C10";
+    if (r.hang || r.crashed || r.horizon) return;
+    const Variant* v = VariantOf(sc, before);
+    if (!v) return;
+    const Variant* tv = nullptr;
+    {
+      const vfs::File* f = twin_before.Get("build.ninja");
+      if (f) for (auto& x : sc.twin_variants) if (x.manifest_hash == Fnv(f->data)) tv = &x;
+    }
+    if (!tv) return;
+    // the one permitted difference: a discovered dependency that disappeared
+    bool discovered_missing = false;
+    for (auto& s : v->stmts)
+      if (!s.phony) for (auto& h : s.spec.hidden) if (!before.Get(h) && !v->producer.count(h)) discovered_missing = true;
+    if (rt.exit_code != 0 && discovered_missing && rt.out.find("missing and no known rule") != string::npos) return;
+    set<string> a, b;
+    for (auto& c : r.cmds) if (tv->producer.count(c.spec.id())) a.insert(c.spec.id());
+    for (auto& c : rt.cmds) if (v->producer.count(c.spec.id())) b.insert(c.spec.id());
+    bool r_fail = r.exit_code != 0, t_fail = rt.exit_code != 0;
+    if (a != b || r_fail != t_fail) {
+      Violation x;
+      x.prop = prop; x.clause = "differs-from-declared-twin";
+      string sa, sb;
+      for (auto& i : a) sa += i + " ";
+      for (auto& i : b) sb += i + " ";
+      x.detail = "started {" + sa + "} exit " + to_string(r.exit_code) + ", but with the same information written in the manifest "
+                 "ninja starts {" + sb + "} exit " + to_string(rt.exit_code);
+      // facts for the known finding: a statement with recorded dependencies that is dirty for a
+      // reason of its own (its recorded dependencies are then not loaded)
+      bool own = false, missing_is_consumer_or_generated = false;
+      lp::BuildLogModel bl;
+      if (auto* f = before.Get(kLog)) bl = lp::ParseBuildLog(f->data);
+      for (auto& s : v->stmts) {
+        if (s.phony || (s.deps.empty() && s.depfile.empty())) continue;
+        const vfs::File* o = before.Get(s.id);
+        bool dirty = !o || !bl.entries.count(s.id);
+        for (auto* l : {&s.ex, &s.im})
+          for (auto& i : *l) { const vfs::File* f = before.Get(i); if (!f || (o && f->mtime > o->mtime)) dirty = true; }
+        auto p0 = VariantByHash(sc, v->manifest_hash);
+        (void)p0;
+        if (dirty) own = true;
+      }
+      for (auto& i : b) if (!a.count(i)) missing_is_consumer_or_generated = true;
+      x.facts.set("a_statement_with_recorded_deps_is_dirty_for_its_own_reason", own);
+      x.facts.set("scenario_starts_fewer_statements", missing_is_consumer_or_generated);
+      bool restat_nowrite = false;
+      for (auto& c : r.cmds) {
+        auto p = v->producer.find(c.spec.id());
+        if (p != v->producer.end() && v->stmts[p->second].restat && c.finished && c.status == 0 && !c.wrote) restat_nowrite = true;
+      }
+      x.facts.set("restat_statement_ran_without_rewriting", restat_nowrite);
+      out->push_back(x);
+    }
+    // ordering on discovered / dyndep-supplied inputs (hidden reads and reads beyond the declared ones)
+    vector<int> start_ev(r.cmds.size(), -1), fin_ev(r.cmds.size(), -1);
+    for (size_t i = 0; i < r.events.size(); ++i) {
+      if (r.events[i].kind == Event::kStart) start_ev[r.events[i].cmd] = (int)i;
+      if (r.events[i].kind == Event::kFinish) fin_ev[r.events[i].cmd] = (int)i;
+    }
+    for (size_t c = 0; c < r.cmds.size(); ++c) {
+      auto p = v->producer.find(r.cmds[c].spec.id());
+      if (p == v->producer.end()) continue;
+      const Stmt& s = v->stmts[p->second];
+      vector<string> ins = s.spec.hidden;
+      for (auto& x : s.spec.reads) ins.push_back(x);
+      for (auto& x : ins) {
+        auto px = v->producer.find(x);
+        if (px == v->producer.end() || v->stmts[px->second].phony) continue;
+        // only once the dependency has been reported: the statement has a record from an earlier build
+        bool known = s.deps.empty() && s.depfile.empty() ? true : (before.Get(s.id) != nullptr);
+        if (!known) continue;
+        for (size_t c2 = 0; c2 < r.cmds.size(); ++c2) {
+          if (r.cmds[c2].spec.id() != v->stmts[px->second].id) continue;
+          bool ok = fin_ev[c2] >= 0 && fin_ev[c2] < start_ev[c] && r.cmds[c2].status == 0;
+          if (!ok) {
+            Violation y;
+            y.prop = prop; y.clause = "started-before-discovered-producer";
+            y.detail = "'" + s.id + "' started before the producer of its " +
+                       (find(s.spec.hidden.begin(), s.spec.hidden.end(), x) != s.spec.hidden.end() ? "discovered" : "dyndep-supplied") +
+                       " input '" + x + "' had finished";
+            lp::BuildLogModel bl;
+            if (auto* f = before.Get(kLog)) bl = lp::ParseBuildLog(f->data);
+            const vfs::File* o = before.Get(s.id);
+            bool dirty = !o || !bl.entries.count(s.id);
+            for (auto* l : {&s.ex, &s.im})
+              for (auto& i : *l) { const vfs::File* f = before.Get(i); if (!f || (o && f->mtime > o->mtime)) dirty = true; }
+            y.facts.set("a_statement_with_recorded_deps_is_dirty_for_its_own_reason", dirty && (!s.deps.empty() || !s.depfile.empty()));
+            y.facts.set("stmt", s.id);
+            out->push_back(y);
+          }
+        }
+      }
+    }
+    // final state: the scenario's own clean-build oracle (reported under this property)
+    if (r.exit_code == 0 && op.cfg.edits_during.empty()) {
+      vector<Violation> vs;
+      CheckContent(op, r, after, &vs, prop);
+      for (auto& x : vs) { x.clause = "final-state:" + x.clause; out->push_back(x); }
+    }
+    // classification fact shared by every report of this invocation
+    {
+      bool own = false;
+      for (auto& s : v->stmts)
+        if (!s.phony && (!s.deps.empty() || !s.depfile.empty()) && DirtyByManifest(*v, s, before)) own = true;
+      for (auto& x : *out)
+        if (x.prop == prop) x.facts.set("a_statement_with_recorded_deps_is_dirty_for_its_own_reason", own);
+    }
+  }
+
   /// C06: limits and liveness on one execution.
   void CheckLimits(const Op& op, const RunResult& r, vector<Violation>* out) {
     if (r.hang) {
@@ -1666,6 +1816,7 @@ struct Explorer {
     int64_t crash_at = -1;
     int tear = -1;
     unsigned orphans = 0;
+    vfs::Disk twin;
   };
 
   void RunSchedules(const World& w, int opi, vector<Succ>* succ) {
@@ -1681,6 +1832,14 @@ struct Explorer {
       cfg0.faults.clear();
       cfg0.allow_interrupt = false;
       baseline.reset(new RunResult(RunNinja(&d0, cfg0, {})));
+      st.invocations++;
+    }
+    vfs::Disk twin_after = w.twin;
+    unique_ptr<RunResult> twin_res;
+    if (!sc.twin_variants.empty() && !op.tool) {
+      RunConfig tcfg = op.cfg;
+      tcfg.allow_interrupt = false;
+      twin_res.reset(new RunResult(RunNinja(&twin_after, tcfg, {})));
       st.invocations++;
     }
     function<void(const vector<int>&)> rec = [&](const vector<int>& prefix) {
@@ -1720,6 +1879,13 @@ struct Explorer {
         if (Want("C05") && !op.cfg.faults.empty()) CheckRetry(op, r, w.disk, d, &vs);
         if (Want("C06")) CheckLimits(op, r, &vs);
         if (Want("C17")) CheckCycle(op, r, w.disk, d, &vs);
+        if (twin_res && (Want("C10") || Want("C11"))) CheckTwin(op, r, w.disk, d, *twin_res, w.twin, twin_after, &vs);
+        if (op.expect_error && Want("C11") && !r.hang && !r.crashed && r.exit_code == 0) {
+          Violation x; x.prop = "C11"; x.clause = "invalid-dyndep-accepted";
+          x.detail = "the dyndep information is invalid for this graph but the build succeeded (started " +
+                     js::Dump(StartedList(r)) + ")";
+          vs.push_back(x);
+        }
         if (Want("C07")) {
           CheckInterrupt(r, w.disk, d, &vs);
           if (w.abnormal) CheckUnexpectedError(op, r, &vs);
@@ -1761,6 +1927,7 @@ struct Explorer {
         s.is_base = success && !content_bad && !edited_during && op.targets.empty() && op.cfg.faults.empty() &&
                     !op.tool && !op.dry_run;
         s.abnormal = w.abnormal;
+        s.twin = twin_after;
         for (auto& e : r.events) if (e.kind == Event::kInterrupt) s.abnormal = true;
         for (auto& c : r.cmds) if (c.finished && c.status == 130) s.abnormal = true;
         if (s.is_base)
@@ -1858,6 +2025,10 @@ struct Explorer {
       if (sl != string::npos) w0.disk.MkdirP(kv.first.substr(0, sl));
       w0.disk.Write(kv.first, kv.second);
     }
+    if (!sc.twin_variants.empty()) {
+      w0.twin = w0.disk;
+      for (auto& kv : sc.twin_variants[0].files) w0.twin.Write(kv.first, kv.second);
+    }
     for (auto& kv : sc.variants[0].files) w0.disk.Write(kv.first, kv.second);
     // init ops, default schedule
     for (int opi : sc.init) {
@@ -1866,8 +2037,10 @@ struct Explorer {
         RunResult r = RunNinja(&w0.disk, op.cfg, {});
         st.invocations++;
         w0.hist.push_back({opi, r.choices});
+        if (!sc.twin_variants.empty()) { RunNinja(&w0.twin, op.cfg, {}); st.invocations++; }
       } else {
         ApplySimple(op, &w0.disk);
+        if (!sc.twin_variants.empty()) ApplySimple(op, &w0.twin, true);
         w0.hist.push_back({opi, {}});
       }
     }
@@ -1904,11 +2077,13 @@ struct Explorer {
             nw.hist.push_back({(int)opi, s.choices, s.crash_at, s.tear, s.orphans});
             if (s.is_base) { nw.base = make_shared<vfs::Disk>(nw.disk); nw.base_restat_pruned = s.restat_pruned; }
             nw.abnormal = s.abnormal;
+            nw.twin = s.twin;
             frontier.push_back({nw, dpt + 1});
           }
         } else {
           World nw = w;
           if (!ApplySimple(op, &nw.disk)) continue;
+          if (!sc.twin_variants.empty()) ApplySimple(op, &nw.twin, true);
           st.transitions++;
           string key = WorldKey(nw.disk);
           if (!seen.insert(key).second) continue;
